@@ -7,7 +7,7 @@ PROP = dict(
         "ntp_proto::packet::v5::extension_fields::ReferenceIdRequest::serialize, RemoteBloomFilter::next_request",
     ],
     bounds="NTS sources: every cookie length 0..=1024 (symbolic), every stash fill 0..=8, the four protocol-version states, any reach/tries/poll desire 0..=17, every random draw; "
-           "per-field encoder: every cookie/placeholder length 0..=1024, every remaining buffer size 0..=1100, both wire formats; plain sources: all versions, any poll/reach/tries state",
+           "per-field encoder: every cookie/placeholder length 0..=1024 into a sufficient buffer, and lengths 0..=64 into every buffer size 0..=80, both wire formats; plain sources: all versions, any poll/reach/tries state",
     outside="the composition 'datagram = header + fields + authenticator' inside NtpPacket::serialize / ExtensionFieldData::serialize / encode_encrypted for an NTS request is NOT "
             "decided end-to-end: handle_timer + real builder + real encoder in one query does not finish (symex alone > 10 min and > 8 GB for 4 fields; every encoder iteration "
             "dispatches on a symbolic field kind at a symbolic cursor position). It is covered piecewise: handle_timer's decisions (c14_poll_timer_*), the builder's field list "
@@ -26,9 +26,13 @@ PROP = dict(
     harnesses=[
         H(NH, "c14", "c14_poll_timer_v4", "NTPv4 NTS source, all cookie lengths 0..=1024 and stash fills: Send+SetTimer or Reset, never a panic; requested count = min(missing, fit); the request asked for fits 1024 bytes", timeout=300),
         H(NH, "c14", "c14_poll_timer_v5", "same for upgrading / upgraded (incl. fallback to v4) / NTPv5 NTS sources", timeout=300),
-        H(NH, "c14", "c14_ef_size", "real per-field encoder: cookie and placeholder fields occupy exactly max(16, 4 + L rounded up to 4) bytes or fail without panic when the buffer is too small", timeout=300),
+        H(NH, "c14", "c14_ef_size", "real per-field encoder: cookie and placeholder fields occupy exactly max(16, 4 + L rounded up to 4) bytes (all L <= 1024)", timeout=300),
+        H(NH, "c14", "c14_ef_nofit", "real per-field encoder when the remaining buffer is too small (L <= 64, room <= 80): error, never a panic; written iff it fits", timeout=300),
         H(NH, "c14", "c14_budget", "margin rule vs. field sizes: fixed part + min(missing, floor(724/max(L,1))) cookie-sized fields <= 1024 for all L, fills, versions", timeout=120),
-        H(NH, "c14", "c14_write_zeros_model", "loop-free write_zeros model = real loop (bytes, position, success) for n, room <= 1100", timeout=300),
-        H(NH, "c14", "c14_poll_plain", "sources without NTS, all protocol versions, real builder + encoder: Send(<= 1024)+SetTimer, Reset or Demobilize; never a panic", timeout=300),
+        H(NH, "c14", "c14_write_zeros_model", "loop-free write_zeros model = real loop (bytes, position, success) for n <= 128, room <= 160 (the model is only reached with padding-sized n)", timeout=300),
+        H(NH, "c14", "c14_poll_plain_v4", "source without NTS, NTPv4, real builder + encoder: Send(<= 1024)+SetTimer, Reset or Demobilize; never a panic", timeout=300),
+        H(NH, "c14", "c14_poll_plain_upgrading", "same, NTPv4 with upgrade request", timeout=300),
+        H(NH, "c14", "c14_poll_plain_upgraded", "same, just upgraded to NTPv5 (incl. fallback to NTPv4)", timeout=600),
+        H(NH, "c14", "c14_poll_plain_v5", "same, NTPv5 (draft id + reference-id request fields)", timeout=600),
     ],
 )
